@@ -603,7 +603,7 @@ pub fn run_case<T: Elem>(case: &Case, stats: &mut Stats) -> Vec<Violation> {
 						continue;
 					}
 					Corrupt::FromPartsLenMax => {
-						if PMAX > 70_000 {
+						if PMAX > 255 {
 							continue;
 						}
 						let big: Vec<T> = (0..PMAX).map(|i| T::label(i as u32)).collect();
@@ -633,7 +633,7 @@ pub fn run_case<T: Elem>(case: &Case, stats: &mut Stats) -> Vec<Violation> {
 						set_index(&mut tree, PMAX);
 					}
 					Corrupt::BufLenAroundMax(d) => {
-						if PMAX > 70_000 {
+						if PMAX > 255 {
 							continue;
 						}
 						let target = (PMAX + d - 1) as usize;
